@@ -20,8 +20,8 @@ VARIANTS = [
     V('benign-linkmass-inline', A, ("link_mass = self._link_masses[i]\n            applied_pos_global = joint_poses[i] @ link_mass_cg\n            carry_wrench = carry_wrench + fsr.makeWrench(applied_pos_global, link_mass, self.grav)", "applied_pos_global = joint_poses[i] @ link_mass_cg\n            carry_wrench = carry_wrench + fsr.makeWrench(applied_pos_global, self._link_masses[i], self.grav)"), 'silent'),
     V('inverse-statics-truncated-pinv', R, ("return Wrench(np.linalg.pinv(self.jacobian(*args, **kwargs).T) @ forces)", "return Wrench(np.linalg.pinv(self.jacobian(*args, **kwargs).T, rcond=1e-5) @ forces)"), 'fire', 'without truncation'),
     V('benign-inverse-statics-default-rcond', R, ("return Wrench(np.linalg.pinv(self.jacobian(*args, **kwargs).T) @ forces)", "return Wrench(np.linalg.pinv(self.jacobian(*args, **kwargs).T, rcond=1e-15) @ forces)"), 'silent'),
-    V('benign-refresh-while-loop', A, ('for i in range(0, self.num_dof):\n            self.screw_list_body[:, i] = (\n                fmr.Adjoint(self._end_effector_home.inv().gTM()) @\n                self.screw_list[:, i])', 'adj = fmr.Adjoint(self._end_effector_home.inv().gTM())\n        k = 0\n        while k < self.num_dof:\n            self.screw_list_body[:, k] = adj @ self.screw_list[:, k]\n            k += 1'), 'silent'),
-    V('refresh-while-loop-from-one', A, ('for i in range(0, self.num_dof):\n            self.screw_list_body[:, i] = (\n                fmr.Adjoint(self._end_effector_home.inv().gTM()) @\n                self.screw_list[:, i])', 'adj = fmr.Adjoint(self._end_effector_home.inv().gTM())\n        k = 1\n        while k < self.num_dof:\n            self.screw_list_body[:, k] = adj @ self.screw_list[:, k]\n            k += 1'), 'fire', 'R06.1'),
+    V('benign-refresh-while-loop', A, ('space screw list.\n        """\n        for i in range(0, self.num_dof):\n            self.screw_list_body[:, i] = (\n                fmr.Adjoint(self._end_effector_home.inv().gTM()) @\n                self.screw_list[:, i])', 'space screw list.\n        """\n        adj = fmr.Adjoint(self._end_effector_home.inv().gTM())\n        k = 0\n        while k < self.num_dof:\n            self.screw_list_body[:, k] = adj @ self.screw_list[:, k]\n            k += 1'), 'silent'),
+    V('refresh-while-loop-from-one', A, ('space screw list.\n        """\n        for i in range(0, self.num_dof):\n            self.screw_list_body[:, i] = (\n                fmr.Adjoint(self._end_effector_home.inv().gTM()) @\n                self.screw_list[:, i])', 'space screw list.\n        """\n        adj = fmr.Adjoint(self._end_effector_home.inv().gTM())\n        k = 1\n        while k < self.num_dof:\n            self.screw_list_body[:, k] = adj @ self.screw_list[:, k]\n            k += 1'), 'fire', 'R06.1'),
     V('benign-linkmass-reversed-range', A, ("for i in range(self.num_dof, 0, -1):", "for i in reversed(range(1, self.num_dof + 1)):"), 'silent'),
     V('linkmass-loop-misses-first-link', A, ("for i in range(self.num_dof, 0, -1):", "for i in reversed(range(2, self.num_dof + 1)):"), 'fire', 'R06.4'),
 ]
